@@ -565,7 +565,9 @@ def utf8_lengths(quick):
     """Total byte lengths of the field value."""
     if not quick:
         return list(range(1, 1501))
-    out = set(range(216, 281)) | set(range(984, 1041)) | set(range(1230, 1411))
+    # 256 (characters or bytes, with and without the 16-byte 'Invalid method: ' prefix), 4 x 256 = 1024, the
+    # length at which the echoing reply crosses MSG_SIZE_LIMIT (~1253), MSG_SIZE_LIMIT itself
+    out = set(range(232, 273)) | set(range(1000, 1033)) | set(range(1236, 1277)) | set(range(1384, 1411))
     return sorted(out)
 
 
@@ -1028,7 +1030,12 @@ def sequence_work(item, res):
     _, first, mode, k, s1, s2, quick = item
     for tail in itertools.product(SEQ_SYMBOLS, repeat=k - 2):
         symbols = [s1, s2] + list(tail)
-        gap_sets = [[g] * (k - 1) for g in SEQ_GAPS] if quick else itertools.product(SEQ_GAPS, repeat=k - 1)
+        if not quick:
+            gap_sets = itertools.product(SEQ_GAPS, repeat=k - 1)
+        elif k == 4:
+            gap_sets = [[0] * (k - 1)]
+        else:
+            gap_sets = [[g] * (k - 1) for g in SEQ_GAPS]
         for gaps in gap_sets:
             run_sequence(('seq', first, mode, symbols, list(gaps)), res)
 
@@ -1366,7 +1373,7 @@ def plan(tier):
     items = [('codec', part, quick) for part in range(len(ID_ALPHABET))]
     items += [('base+trunc+sub1', bi) for bi in range(len(bs))]
     head2 = HEAD if quick else 48
-    head3 = 12 if quick else HEAD
+    head3 = 10 if quick else HEAD
     all_pairs = []
     for bi, (name, sender, msg, enc) in enumerate(bs):
         if not quick and name in ALL_PAIRS_FOR:
@@ -1410,16 +1417,16 @@ def plan(tier):
         if it[0] == 'codec':
             return 2000
         if it[0] == 'seq':
-            return 7 ** (it[3] - 2) * (3 if quick else 3 ** (it[3] - 1)) * it[3]
+            return 7 ** (it[3] - 2) * ((1 if it[3] == 4 else 3) if quick else 3 ** (it[3] - 1)) * it[3]
         if it[0] == 'utf8':
             return (2 if it[1] == 'method' else 1) * (1500 if quick else 6000)
         return 300
     items.sort(key=weight, reverse=True)
     return items, {'sub2_first_offsets': head2, 'sub3_first_offsets': head3, 'sub2_last_offsets': 0 if quick else HEAD,
                    'sub2_all_offset_pairs_for': all_pairs,
-                   'utf8_field_byte_lengths': '216-280, 984-1040, 1230-1410 + 228-264 characters' if quick else '1-1500',
+                   'utf8_field_byte_lengths': '232-272, 1000-1032, 1236-1276, 1384-1410 + 228-264 characters' if quick else '1-1500',
                    'sequence_lengths': '2-4 (two senders: 2-3)' if quick else '2-4',
-                   'sequence_gaps_s': list(SEQ_GAPS), 'sequence_gap_choice': 'same gap throughout' if quick else 'independent',
+                   'sequence_gaps_s': list(SEQ_GAPS), 'sequence_gap_choice': 'same gap throughout (length 4: gap 0 only)' if quick else 'independent',
                    'sequence_alphabet': dict(SEQ_SYMBOL_NAMES),
                    'utf8_fields': list(UTF8_FIELDS), 'digit_fields': list(DIGIT_FIELDS),
                    'digit_counts': '230-262, 4290-4310' if quick else '1-300, 4250-4350'}
@@ -1476,7 +1483,7 @@ def run(ctx):
               'sequence of 2..4 datagrams over {valid ping, valid response to an in-flight request, undecodable, '
               'schema-invalid request, unknown method, oversize unknown method, duplicate of the previous datagram} sent '
               'to ONE live node by one sender (addressee of the in-flight requests / stranger) or alternating between the '
-              'two, the clock advancing 0 / 61 / 721 s between datagrams (quick: same gap throughout; thorough: every gap '
+              'two, the clock advancing 0 / 61 / 721 s between datagrams (quick: same gap throughout, length 4 only with gap 0; thorough: every gap '
               'combination); every datagram judged against the state right before it, failures counted per '
               'report_failure call; afterwards a third party must get its ping answered. Non-trivial/distinct = distinct (sender, datagram bytes) other than the 12 '
               'unmutated ones, plus distinct codec messages.'),
